@@ -75,7 +75,14 @@ def _case(draw, tier):
     else:
         nodes, labels = draw(gen.g2_nodes(max_nodes=6))
         map_lists = {}
+    entry = None
+    if "dag" in labels and prob(draw, 0.3):
+        # the run is scoped by an entry point (upstream values come from the caller); scoping must mean the same on both runners
+        # and under every schedule, also while nested / mapping nodes run in between
+        entry = draw(st.sampled_from([n["name"] for n in nodes]))
+        labels.append("entry_point")
     return {
+        "entry": entry,
         "nodes": nodes,
         "labels": labels,
         "map_lists": map_lists,
@@ -182,7 +189,7 @@ def check_case(case, ev):
     nodes = case["nodes"]
     labels = set(case["labels"])
     mi = case["max_iter"]
-    gspec = {"nodes": nodes}
+    gspec = {"nodes": nodes, **({"entry": [case["entry"]]} if case.get("entry") else {})}
     ctx_s = Ctx(compact=True)
     try:
         g_s = make_graph(ctx_s, gspec, "sync")
@@ -282,7 +289,7 @@ def check_case(case, ev):
 
             permuted = [({**x, "graph": {**x["graph"], "nodes": [x["graph"]["nodes"][j] for j in inner_order(len(x["graph"]["nodes"]))]}}
                          if x["k"] == "graph" and x.get("map") else x) for x in permuted]
-            g = make_graph(ctx, {"nodes": permuted}, "sync")
+            g = make_graph(ctx, {**gspec, "nodes": permuted}, "sync")
             out = run_sync(g, vals, max_iterations=mi, error_handling="continue", **kw)
             tried += 1
             if _norm(out, ctx) != base_norm:
